@@ -441,6 +441,7 @@ type env struct {
 	bc       *core.BlockChain
 	preHead  common.Hash   // head block marker found in the database before NewBlockChain
 	preCanon []common.Hash // canonical hashes 0..maxn+1 found before NewBlockChain
+	check    func(when string) // the direct oracle, evaluated after every operation (may be nil)
 }
 
 // openEnv opens the database (key-value image + ancient dir) and starts the chain on it.
@@ -550,6 +551,9 @@ func (cs *caseSpec) runOps(e *env, ops []opSpec, cutOp, cutKind, cutBlock int) *
 			db.(freezerI).Freeze()
 		}
 		cr.opErrs = append(cr.opErrs, class)
+		if e.check != nil {
+			e.check(fmt.Sprintf("op %d", i))
+		}
 		if image != nil {
 			break
 		}
@@ -591,6 +595,32 @@ func (cs *caseSpec) runOps(e *env, ops []opSpec, cutOp, cutKind, cutBlock int) *
 		}
 	}
 	return cr
+}
+
+// markersAbove looks at the canonical markers above the head header's number: there must be
+// none.  The one recorded deviation is tolerated by its own shape only (C38's open finding
+// C38-linked-canon-above-head-header: a re-import of the SAME chain on a rewound head block
+// pulls the head header down and leaves the chain's own markers above it): every marker
+// above is then a parent-linked DESCENDANT of the head header, without a gap.  Anything else
+// (a marker that is not a descendant of the head: the index ends in blocks of an abandoned
+// chain) is a failure.
+func markersAbove(db ethdb.Database, bc *core.BlockChain, maxn int) (string, bool) {
+	ch := bc.CurrentHeader()
+	prev, gap, seen := ch.Hash(), false, false
+	for n := ch.Number.Uint64() + 1; n <= uint64(maxn)+2; n++ {
+		h := rawdb.ReadCanonicalHash(db, n)
+		if h == (common.Hash{}) {
+			gap = true
+			continue
+		}
+		seen = true
+		hd := rawdb.ReadHeader(db, h, n)
+		if gap || hd == nil || hd.ParentHash != prev {
+			return fmt.Sprintf("canonical marker at %d above the head header #%d is not a descendant of it (number index ends in an abandoned chain)", n, ch.Number), false
+		}
+		prev = h
+	}
+	return "", seen
 }
 
 func eqInts(a, b []int) bool {
@@ -708,6 +738,11 @@ func run(c Sx) Result {
 		}
 		if !onChain && len(fails) == 0 {
 			fail("%s: head block is not an ancestor of the head header", when)
+		}
+		if msg, known := markersAbove(db2, bc, maxn); msg != "" {
+			fail("%s: %s", when, msg)
+		} else if known {
+			res.Tags = append(res.Tags, "C38-linked-canon-above-head-header")
 		}
 	}
 	checkChain("after restart")
